@@ -20,6 +20,12 @@ extern "C" {
         vfs: *const c_char,
     ) -> c_int;
     fn sqlite3_close(db: *mut Sqlite3) -> c_int;
+    fn sqlite3_progress_handler(
+        db: *mut Sqlite3,
+        n_ops: c_int,
+        cb: Option<unsafe extern "C" fn(*mut c_void) -> c_int>,
+        arg: *mut c_void,
+    );
     fn sqlite3_errmsg(db: *mut Sqlite3) -> *const c_char;
     fn sqlite3_prepare_v2(
         db: *mut Sqlite3,
@@ -139,6 +145,22 @@ pub fn sort_rows(rows: &mut [Row]) {
 
 pub struct Db {
     db: *mut Sqlite3,
+    /// virtual-machine step accounting of the statement being run (see `STEP_BUDGET_CALLBACKS`)
+    steps: Box<std::cell::Cell<u64>>,
+}
+
+/// The engine's progress handler is called every `STEP_GRAIN` virtual-machine operations; a statement that
+/// needs more than `STEP_BUDGET_CALLBACKS` calls (20 million operations — the fixtures hold a few dozen rows,
+/// ordinary statements need a few thousand) is interrupted and fails with "interrupted". This bounds
+/// non-terminating statements (a recursive CTE that lost its stop condition) in logical steps, not wall time.
+const STEP_GRAIN: c_int = 10_000;
+const STEP_BUDGET_CALLBACKS: u64 = 2_000;
+
+unsafe extern "C" fn progress_cb(arg: *mut c_void) -> c_int {
+    let cell = &*(arg as *const std::cell::Cell<u64>);
+    let n = cell.get() + 1;
+    cell.set(n);
+    (n > STEP_BUDGET_CALLBACKS) as c_int
 }
 
 #[derive(Debug, Clone, PartialEq, Eq)]
@@ -172,7 +194,14 @@ impl Db {
             )
         };
         assert_eq!(rc, SQLITE_OK, "sqlite3_open_v2 failed");
-        Db { db }
+        let steps = Box::new(std::cell::Cell::new(0u64));
+        unsafe { sqlite3_progress_handler(db, STEP_GRAIN, Some(progress_cb), &*steps as *const std::cell::Cell<u64> as *mut c_void) };
+        Db { db, steps }
+    }
+
+    /// True when the last statement was cut off by the step budget.
+    pub fn step_budget_exceeded(&self) -> bool {
+        self.steps.get() > STEP_BUDGET_CALLBACKS
     }
 
     fn err(&self, code: c_int, at_prepare: bool) -> SqlErr {
@@ -228,6 +257,7 @@ impl Db {
     }
 
     pub fn query(&self, sql: &str, binds: &[SqlVal]) -> Result<QueryResult, SqlErr> {
+        self.steps.set(0);
         let stmt = self.prepare(sql)?;
         let want = unsafe { sqlite3_bind_parameter_count(stmt) } as usize;
         if want != binds.len() {
@@ -356,5 +386,23 @@ impl Db {
 impl Drop for Db {
     fn drop(&mut self) {
         unsafe { sqlite3_close(self.db) };
+    }
+}
+
+#[cfg(test)]
+mod step_budget_tests {
+    use super::*;
+
+    #[test]
+    fn runaway_recursion_is_interrupted_and_the_connection_stays_usable() {
+        let db = Db::memory();
+        let t0 = std::time::Instant::now();
+        let r = db.rows("WITH RECURSIVE c(n) AS (SELECT 1 UNION ALL SELECT n + 1 FROM c) SELECT count(*) FROM c");
+        assert!(r.is_err(), "unbounded recursion must be interrupted");
+        assert!(db.step_budget_exceeded());
+        assert!(t0.elapsed().as_secs() < 30);
+        let r = db.rows("SELECT 41 + 1").unwrap();
+        assert_eq!(r[0][0], SqlVal::Int(42));
+        assert!(!db.step_budget_exceeded());
     }
 }
